@@ -1,0 +1,107 @@
+//! Verification hooks. This module only exists when the crate is compiled with
+//! `--cfg smlxl_storage_layout_extractor_verif`; without that flag none of this
+//! code is part of the build.
+//!
+//! - H2: a deterministic, thread-local source for the identities of fresh
+//!   symbolic values, so that runs are reproducible and can be compared with an
+//!   executable model that numbers fresh values in creation order.
+//! - H1: an explicit, replayable iteration order for the hash-based collections
+//!   whose iteration order can influence results.
+
+use std::cell::{Cell, RefCell};
+
+use uuid::Uuid;
+
+/// The first identity handed out after [`reset_ids`].
+pub const FIRST_ID: u128 = 1_000_000;
+
+thread_local! {
+    static NEXT_ID: Cell<Option<u128>> = const { Cell::new(None) };
+    static ORDER_MODE: Cell<OrderMode> = const { Cell::new(OrderMode::Natural) };
+    static ORDER_LOG: RefCell<Vec<(&'static str, usize)>> = const { RefCell::new(Vec::new()) };
+}
+
+/// Switches deterministic identities on (counting from [`FIRST_ID`]).
+pub fn reset_ids() {
+    NEXT_ID.with(|c| c.set(Some(FIRST_ID)));
+}
+
+/// Switches deterministic identities off again (random identities).
+pub fn random_ids() {
+    NEXT_ID.with(|c| c.set(None));
+}
+
+/// The next deterministic identity, if deterministic identities are on.
+#[must_use]
+pub fn next_uuid() -> Option<Uuid> {
+    NEXT_ID.with(|c| {
+        c.get().map(|n| {
+            c.set(Some(n + 1));
+            Uuid::from_u128(n)
+        })
+    })
+}
+
+/// How [`order`] arranges the items of an order-sensitive iteration.
+#[derive(Clone, Copy, Debug, Eq, PartialEq)]
+pub enum OrderMode {
+    /// Leave the collection's own (hash) order alone.
+    Natural,
+    /// Reverse the collection's own order.
+    Reversed,
+    /// Sort by the key supplied at the iteration point.
+    Sorted,
+    /// Sort by the key supplied at the iteration point, descending.
+    SortedReversed,
+    /// Sort, then apply the permutation generated from this seed.
+    Seeded(u64),
+}
+
+/// Selects the order used by every subsequent [`order`] call on this thread.
+pub fn set_order_mode(mode: OrderMode) {
+    ORDER_MODE.with(|m| m.set(mode));
+    ORDER_LOG.with(|l| l.borrow_mut().clear());
+}
+
+/// The iteration points passed so far, with the number of items at each.
+#[must_use]
+pub fn order_log() -> Vec<(&'static str, usize)> {
+    ORDER_LOG.with(|l| l.borrow().clone())
+}
+
+/// Arranges `items`, collected at the named iteration `point`, according to the
+/// current [`OrderMode`]; `key` gives a total order that does not depend on
+/// hash seeds.
+pub fn order<T, K: Ord>(point: &'static str, mut items: Vec<T>, key: impl Fn(&T) -> K) -> Vec<T> {
+    ORDER_LOG.with(|l| l.borrow_mut().push((point, items.len())));
+    match ORDER_MODE.with(Cell::get) {
+        OrderMode::Natural => {}
+        OrderMode::Reversed => items.reverse(),
+        OrderMode::Sorted => items.sort_by_key(|i| key(i)),
+        OrderMode::SortedReversed => {
+            items.sort_by_key(|i| key(i));
+            items.reverse();
+        }
+        OrderMode::Seeded(seed) => {
+            items.sort_by_key(|i| key(i));
+            // Fisher-Yates driven by splitmix64, so the permutation is a function of the seed,
+            // the point and the number of items
+            let mut state = seed ^ (items.len() as u64).wrapping_mul(0x9e37_79b9_7f4a_7c15);
+            for b in point.bytes() {
+                state = state.wrapping_mul(31).wrapping_add(u64::from(b));
+            }
+            let mut next = || {
+                state = state.wrapping_add(0x9e37_79b9_7f4a_7c15);
+                let mut z = state;
+                z = (z ^ (z >> 30)).wrapping_mul(0xbf58_476d_1ce4_e5b9);
+                z = (z ^ (z >> 27)).wrapping_mul(0x94d0_49bb_1331_11eb);
+                z ^ (z >> 31)
+            };
+            for i in (1..items.len()).rev() {
+                let j = (next() % (i as u64 + 1)) as usize;
+                items.swap(i, j);
+            }
+        }
+    }
+    items
+}
